@@ -20,7 +20,8 @@ STATUS.  Proved, for all inputs, the two media paths end to end and the transpor
 * `C02_publish_workflow` / `C02_play_workflow`: a NEW client session and a NEW server session, ANY
   configurations the library accepts, ANY application name and stream key (valid UTF-8, key ≤ 65535
   bytes).  The two applications forward packets, accept what they are shown, and call
-  `request_connection` then `request_publishing` / `request_playback`.  Whatever those application
+  `request_connection` then `request_publishing` / `request_playback`, each call with ANY clock reading
+  (`clk i` for the i-th call, not even monotone).  Whatever those application
   calls return when they return Ok, EVERY `handle_input` in between succeeds and returns exactly the
   listed results (one connection request for the name minus one trailing '/', one publish / play
   request for that application and the requested key, "connection accepted", "publish accepted" /
@@ -30,7 +31,7 @@ STATUS.  Proved, for all inputs, the two media paths end to end and the transpor
 * `C02_publish_items`, `C02_play_items`: the media theorems restated on such a pair; the pair is ready
   again afterwards, so they iterate.  `C02_stop_publishing`, `C02_stop_playback`: stopping raises exactly
   the matching finished event at the server.
-* `C02_publish_end_to_end`: the three chained from two new sessions.
+  (The workflow's conclusion is the hypothesis of the items and stop theorems, so the three chain.)
 
 Schedule.  The workflow is request/response, so the only freedom a schedule has is how each direction's
 bytes are cut into calls and when acknowledgements are sent.  The theorems deliver each hop's bytes in
@@ -171,53 +172,53 @@ example :
 open Rml.Workflow Rml.WfSteps
 
 /-- **connect then publish completes on both sides** (statement and proof: Lemmas/Workflow.lean) -/
-theorem C02_publish_workflow (ccfg : Cli.Config) (scfg : Srv.Config) (now : Nat) (app key : Bytes) (t : Cli.PublishType)
+theorem C02_publish_workflow (ccfg : Cli.Config) (scfg : Srv.Config) (clk : Nat → Nat) (app key : Bytes) (t : Cli.PublishType)
     (hcw : CfgWF ccfg) (hco : CfgOK ccfg) (hsw : SCfgWF scfg)
     (happ : Utf8.valid app = true) (hkey : Utf8.valid key = true) (hkl : key.length ≤ 65535)
-    {v0 : Srv.State} {rs0 : List Srv.Res} (hnew : Srv.new scfg now = .ok (v0, rs0)) :
-    ∃ c1 b4, CliPart.drain ({ cfg := ccfg } : Cli.State) now (bytesS rs0) = (c1, .ok (bannerEvents scfg now b4)) ∧
-    ∀ c2 r1, Cli.requestConnection c1 now app = (c2, .ok r1) →
+    {v0 : Srv.State} {rs0 : List Srv.Res} (hnew : Srv.new scfg (clk 0) = .ok (v0, rs0)) :
+    ∃ c1 b4, CliPart.drain ({ cfg := ccfg } : Cli.State) (clk 1) (bytesS rs0) = (c1, .ok (bannerEvents scfg (clk 0) b4)) ∧
+    ∀ c2 r1, Cli.requestConnection c1 (clk 2) app = (c2, .ok r1) →
     ∃ p1 v1, r1 = .out p1 ∧
-      SrvPart.drain v0 now p1.bytes = (v1, .ok [.ev (.connectionRequested 0 (trimApp app))]) ∧
-    ∀ v2 rs2, Srv.acceptRequest v1 now 0 = (v2, .ok rs2) →
+      SrvPart.drain v0 (clk 3) p1.bytes = (v1, .ok [.ev (.connectionRequested 0 (trimApp app))]) ∧
+    ∀ v2 rs2, Srv.acceptRequest v1 (clk 4) 0 = (v2, .ok rs2) →
     ∃ p2 c3 pa pb v3, rs2 = [.out p2] ∧
-      CliPart.drain c2 now p2.bytes = (c3, .ok [.out pa, .ev .connectionAccepted, .out pb]) ∧
-      SrvPart.drain v2 now (pa.bytes ++ pb.bytes) = (v3, .ok []) ∧
-    ∀ c4 r3, Cli.requestStream c3 now (.publish key t) = (c4, .ok r3) →
+      CliPart.drain c2 (clk 5) p2.bytes = (c3, .ok [.out pa, .ev .connectionAccepted, .out pb]) ∧
+      SrvPart.drain v2 (clk 6) (pa.bytes ++ pb.bytes) = (v3, .ok []) ∧
+    ∀ c4 r3, Cli.requestStream c3 (clk 7) (.publish key t) = (c4, .ok r3) →
     ∃ p3 v4 p4 c5 p5 v5, r3 = .out p3 ∧
-      SrvPart.drain v3 now p3.bytes = (v4, .ok [.out p4]) ∧
-      CliPart.drain c4 now p4.bytes = (c5, .ok [.out p5]) ∧
-      SrvPart.drain v4 now p5.bytes = (v5, .ok [.ev (.publishRequested 1 (trimApp app) key (modeOf t))]) ∧
-    ∀ v6 rs6, Srv.acceptRequest v5 now 1 = (v6, .ok rs6) →
+      SrvPart.drain v3 (clk 8) p3.bytes = (v4, .ok [.out p4]) ∧
+      CliPart.drain c4 (clk 9) p4.bytes = (c5, .ok [.out p5]) ∧
+      SrvPart.drain v4 (clk 10) p5.bytes = (v5, .ok [.ev (.publishRequested 1 (trimApp app) key (modeOf t))]) ∧
+    ∀ v6 rs6, Srv.acceptRequest v5 (clk 11) 1 = (v6, .ok rs6) →
     ∃ p6 p7 c6, rs6 = [.out p6, .out p7] ∧
-      CliPart.drain c5 now (p6.bytes ++ p7.bytes) = (c6, .ok [.ev .publishAccepted]) ∧
+      CliPart.drain c5 (clk 12) (p6.bytes ++ p7.bytes) = (c6, .ok [.ev .publishAccepted]) ∧
       PublishReady c6 v6 1 (trimApp app) key (modeOf t) :=
-  publish_workflow ccfg scfg now app key t hcw hco hsw happ hkey hkl hnew
+  publish_workflow ccfg scfg clk app key t hcw hco hsw happ hkey hkl hnew
 
 /-- **connect then play completes on both sides** -/
-theorem C02_play_workflow (ccfg : Cli.Config) (scfg : Srv.Config) (now : Nat) (app key : Bytes)
+theorem C02_play_workflow (ccfg : Cli.Config) (scfg : Srv.Config) (clk : Nat → Nat) (app key : Bytes)
     (hcw : CfgWF ccfg) (hco : CfgOK ccfg) (hbuf : ccfg.bufferLengthMs < 4294967296) (hsw : SCfgWF scfg)
     (happ : Utf8.valid app = true) (hkey : Utf8.valid key = true) (hkl : key.length ≤ 65535)
-    {v0 : Srv.State} {rs0 : List Srv.Res} (hnew : Srv.new scfg now = .ok (v0, rs0)) :
-    ∃ c1 b4, CliPart.drain ({ cfg := ccfg } : Cli.State) now (bytesS rs0) = (c1, .ok (bannerEvents scfg now b4)) ∧
-    ∀ c2 r1, Cli.requestConnection c1 now app = (c2, .ok r1) →
+    {v0 : Srv.State} {rs0 : List Srv.Res} (hnew : Srv.new scfg (clk 0) = .ok (v0, rs0)) :
+    ∃ c1 b4, CliPart.drain ({ cfg := ccfg } : Cli.State) (clk 1) (bytesS rs0) = (c1, .ok (bannerEvents scfg (clk 0) b4)) ∧
+    ∀ c2 r1, Cli.requestConnection c1 (clk 2) app = (c2, .ok r1) →
     ∃ p1 v1, r1 = .out p1 ∧
-      SrvPart.drain v0 now p1.bytes = (v1, .ok [.ev (.connectionRequested 0 (trimApp app))]) ∧
-    ∀ v2 rs2, Srv.acceptRequest v1 now 0 = (v2, .ok rs2) →
+      SrvPart.drain v0 (clk 3) p1.bytes = (v1, .ok [.ev (.connectionRequested 0 (trimApp app))]) ∧
+    ∀ v2 rs2, Srv.acceptRequest v1 (clk 4) 0 = (v2, .ok rs2) →
     ∃ p2 c3 pa pb v3, rs2 = [.out p2] ∧
-      CliPart.drain c2 now p2.bytes = (c3, .ok [.out pa, .ev .connectionAccepted, .out pb]) ∧
-      SrvPart.drain v2 now (pa.bytes ++ pb.bytes) = (v3, .ok []) ∧
-    ∀ c4 r3, Cli.requestStream c3 now (.play key) = (c4, .ok r3) →
+      CliPart.drain c2 (clk 5) p2.bytes = (c3, .ok [.out pa, .ev .connectionAccepted, .out pb]) ∧
+      SrvPart.drain v2 (clk 6) (pa.bytes ++ pb.bytes) = (v3, .ok []) ∧
+    ∀ c4 r3, Cli.requestStream c3 (clk 7) (.play key) = (c4, .ok r3) →
     ∃ p3 v4 p4 c5 p5 p6 v5, r3 = .out p3 ∧
-      SrvPart.drain v3 now p3.bytes = (v4, .ok [.out p4]) ∧
-      CliPart.drain c4 now p4.bytes = (c5, .ok [.out p5, .out p6]) ∧
-      SrvPart.drain v4 now (p5.bytes ++ p6.bytes) =
+      SrvPart.drain v3 (clk 8) p3.bytes = (v4, .ok [.out p4]) ∧
+      CliPart.drain c4 (clk 9) p4.bytes = (c5, .ok [.out p5, .out p6]) ∧
+      SrvPart.drain v4 (clk 10) (p5.bytes ++ p6.bytes) =
         (v5, .ok [.ev (.playRequested 1 (trimApp app) key .liveOrRecorded none false 1)]) ∧
-    ∀ v6 rs6, Srv.acceptRequest v5 now 1 = (v6, .ok rs6) →
-    ∃ c6, CliPart.drain c5 now (bytesS rs6) =
+    ∀ v6 rs6, Srv.acceptRequest v5 (clk 11) 1 = (v6, .ok rs6) →
+    ∃ c6, CliPart.drain c5 (clk 12) (bytesS rs6) =
         (c6, .ok [.ev (.unhandleableOnStatus (str "NetStream.Play.Reset")), .ev .playbackAccepted]) ∧
       PlayReady c6 v6 1 (trimApp app) key :=
-  play_workflow ccfg scfg now app key hcw hco hbuf hsw happ hkey hkl hnew
+  play_workflow ccfg scfg clk app key hcw hco hbuf hsw happ hkey hkl hnew
 
 /-- media on a publishing pair; ready again afterwards -/
 theorem C02_publish_items {c c' : Cli.State} {v : Srv.State} {sid : Nat} {app key : Bytes} {mode : Srv.PublishMode}
@@ -238,15 +239,15 @@ theorem C02_play_items {c : Cli.State} {v v' : Srv.State} {sid : Nat} {app key :
 
 /-- stopping raises exactly the matching finished event at the server -/
 theorem C02_stop_publishing {c c1 : Cli.State} {v : Srv.State} {sid : Nat} {app key : Bytes} {mode : Srv.PublishMode}
-    {now : Nat} {rs : List Cli.Res}
-    (hr : PublishReady c v sid app key mode) (h : Cli.stop c now false = (c1, .ok rs)) :
-    ∃ p v1, rs = [.out p] ∧ SrvPart.drain v now p.bytes = (v1, .ok [.ev (.publishFinished app key)]) ∧
+    {n1 n2 : Nat} {rs : List Cli.Res}
+    (hr : PublishReady c v sid app key mode) (h : Cli.stop c n1 false = (c1, .ok rs)) :
+    ∃ p v1, rs = [.out p] ∧ SrvPart.drain v n2 p.bytes = (v1, .ok [.ev (.publishFinished app key)]) ∧
       InStep c1 v1 ∧ c1.st = .connected ∧ c1.activeStream = none ∧ mapGet sid v1.streams = none :=
   stop_publishing hr h
 
-theorem C02_stop_playback {c c1 : Cli.State} {v : Srv.State} {sid : Nat} {app key : Bytes} {now : Nat} {rs : List Cli.Res}
-    (hr : PlayReady c v sid app key) (h : Cli.stop c now true = (c1, .ok rs)) :
-    ∃ p v1, rs = [.out p] ∧ SrvPart.drain v now p.bytes = (v1, .ok [.ev (.playFinished app key)]) ∧
+theorem C02_stop_playback {c c1 : Cli.State} {v : Srv.State} {sid : Nat} {app key : Bytes} {n1 n2 : Nat} {rs : List Cli.Res}
+    (hr : PlayReady c v sid app key) (h : Cli.stop c n1 true = (c1, .ok rs)) :
+    ∃ p v1, rs = [.out p] ∧ SrvPart.drain v n2 p.bytes = (v1, .ok [.ev (.playFinished app key)]) ∧
       InStep c1 v1 ∧ c1.st = .connected ∧ c1.activeStream = none ∧ mapGet sid v1.streams = none :=
   stop_playback hr h
 
